@@ -190,7 +190,9 @@ def _pair_one(c):
       bad(f'trajectory:{cls}:{fk}', f'3 SIL3 steps (dt = {si["dt"]} s, exponential filter) under the two scales differ by {err:.3e} '
           f'after conversion to SI')
   out.append({'case': None, 'sig': '__stat__', 'detail': '', 'n': ncmp})
-  return out
+  prop = lambda g: (g.startswith('trajectory:') or ':exception:' in g or
+                    (g.startswith('dimension:') and g.split(':')[2].startswith(('explicit.', 'implicit.', 'forcing.'))))
+  return common.settle(out, prop)
 
 
 replay_pairs = common.per_case(_pair_one, 'pair')
@@ -244,7 +246,7 @@ REPLAYERS = {'pair': replay_pairs, 'generic': replay_generic}
 def replay(ctx, kind, cases):
   for m in REPLAYERS[kind](cases):
     if m['sig'] != '__stat__':
-      ctx.mismatch(kind, m['case'], m['sig'], m['detail'])
+      ctx.record(kind, m)
 
 
 GRIDS = [dict(M=5, impl='real'), dict(M=4, impl='fast', mult=4), dict(M=3, L=5, impl='real', offset=0.3)]
@@ -285,7 +287,7 @@ def run(ctx):
     if m['sig'] == '__stat__':
       ctx.comparisons += m['n']
     else:
-      ctx.mismatch('generic' if m['sig'].startswith('generic') else 'pair', m['case'], m['sig'], m['detail'])
+      ctx.record('generic' if m['sig'].startswith('generic') else 'pair', m)
   for c in items:
     ctx.distinct.add(json.dumps([c['class'], c['basename'], c['d'], c['k']]))
   ctx.sample({k: items[2][k] for k in ('class', 'basename', 'base', 'd', 'k', 'scale', 'expect')})
